@@ -32,7 +32,7 @@ func Snap(dir string) map[string]string {
 		}
 		switch {
 		case info.IsDir():
-			out[rel] = fmt.Sprintf("d:%o", info.Mode().Perm())
+			out[rel] = fmt.Sprintf("d:%o%s", info.Mode().Perm(), specialBits(info.Mode()))
 		case info.Mode()&os.ModeSymlink != 0:
 			t, _ := os.Readlink(p)
 			out[rel] = "l:" + t
@@ -46,6 +46,20 @@ func Snap(dir string) map[string]string {
 		return nil
 	})
 	return out
+}
+
+func specialBits(m os.FileMode) string {
+	s := ""
+	if m&os.ModeSetuid != 0 {
+		s += "+setuid"
+	}
+	if m&os.ModeSetgid != 0 {
+		s += "+setgid"
+	}
+	if m&os.ModeSticky != 0 {
+		s += "+sticky"
+	}
+	return s
 }
 
 // Diff lists created, removed and changed paths between two snapshots (sorted).
@@ -149,6 +163,18 @@ func makeJail(base string, spec *FSSpec) error {
 			if err := os.Symlink(e.Data, p); err != nil {
 				return err
 			}
+		}
+	}
+	if spec.TargetMode != 0 {
+		m := os.FileMode(spec.TargetMode & 0o777)
+		if spec.TargetMode&0o1000 != 0 {
+			m |= os.ModeSticky
+		}
+		if spec.TargetMode&0o2000 != 0 {
+			m |= os.ModeSetgid
+		}
+		if err := os.Chmod(target, m); err != nil {
+			return err
 		}
 	}
 	return nil
